@@ -300,8 +300,6 @@ def vmap(fun, in_axes=0, out_axes=0):
     @functools.wraps(fun)
     def vmapped(*args, **kwargs):
         ctx = cur()
-        if kwargs:
-            raise Undecided("keyword arguments to a vmapped function")
         axes = in_axes
         if isinstance(axes, int) or axes is None:
             axes = [axes] * len(args)
@@ -332,13 +330,29 @@ def vmap(fun, in_axes=0, out_axes=0):
                         raise ValueError("vmap got inconsistent sizes for array axes to be mapped")
                     if sd is None:
                         ctx.prove_then_assume("vmap-sizes-equal", n == d, "safety")
+        # jax.vmap maps every keyword argument along axis 0
+        for leaf in _leaves(kwargs):
+            if not isinstance(leaf, SymArray) or leaf.ndim == 0:
+                raise ValueError(
+                    "vmap was requested to map its argument along axis 0, which implies that its rank should be at least 1, but is only 0"
+                )
+            d = leaf.zshape[0]
+            if n is None:
+                n = d
+            else:
+                sd = same_dim(n, d)
+                if sd is False:
+                    raise ValueError("vmap got inconsistent sizes for array axes to be mapped")
+                if sd is None:
+                    ctx.prove_then_assume("vmap-sizes-equal", n == d, "safety")
         if n is None:
             raise ValueError("vmap must have at least one non-None value in in_axes")
         i = z3.Int(ctx.fresh("vm"))
         ctx.push_binder(i, n)
         try:
             inner = [a if ax is None else _map_leaves(a, lambda leaf: leaf[T(i)]) for a, ax in zip(args, axes)]
-            res = fun(*inner)
+            inner_kw = _map_leaves(kwargs, lambda leaf: leaf[T(i)])
+            res = fun(*inner, **inner_kw)
         finally:
             ctx.pop_binder()
 
